@@ -391,3 +391,38 @@ func localAddr(v ssa.Value) bool {
 		}
 	}
 }
+
+// ---------- abstract output traces (encoder equivalence, C03) ----------
+// A trace is an uninterpreted value built by trApp(trace, chunk); chunks are chU(width, value) for fixed-width integers,
+// chBytes(ref, off, len) for a byte slice or string (identified by its location, not its contents: the encoders do not
+// modify the data they write), and chEnc(tag, payload, epoch) for "the encoding of that box" (whatever bytes its encoder
+// produces). No injectivity is assumed of any of them; equal traces from equal start traces are read as equal byte output.
+
+func (e *Enc) uf(name string, args string, res Sort) {
+	if !e.declSeen[name] {
+		e.declSeen[name] = true
+		e.decl = append(e.decl, fmt.Sprintf("(declare-fun %s (%s) %s)", name, args, res))
+	}
+}
+
+const bv64s = "(_ BitVec 64)"
+
+func (e *Enc) trApp(t, c string) string {
+	e.uf("TR!app", bv64s+" "+bv64s, bv64)
+	return app("TR!app", t, c)
+}
+
+func (e *Enc) chU(width int, v string) string {
+	e.uf("TR!u", "Int "+bv64s, bv64)
+	return app("TR!u", strconv.Itoa(width), v)
+}
+
+func (e *Enc) chBytes(p Val) string {
+	e.uf("TR!bytes", bv64s+" "+bv64s+" "+bv64s, bv64)
+	return app("TR!bytes", p.sRef(), p.sOff(), p.sLen())
+}
+
+func (e *Enc) chEnc(x Val, st *State) string {
+	e.uf("TR!enc", bv64s+" "+bv64s+" Int", bv64)
+	return app("TR!enc", x.L[0], x.L[1], e.epochOf(st))
+}
